@@ -281,7 +281,28 @@ def rule_6(ctx):
                            f'the comparison {la} {sym} {lb} gives {got!r}, expected {want!r} under the one total order (numbers < texts < FALSE < TRUE, '
                            'texts case-insensitive, a blank is the 0 / "" / FALSE of its partner): exactly one of <, =, > may hold and <=, >=, <> '
                            'must follow from them')
-    ctx.floor(1500, 'comparison rows')
+    # texts whose case forms differ in length or are not ASCII: whatever folding the library uses, the six operators agree on it
+    odd = ['straße', 'STRASSE', 'ß', 'ss', 'SS', 'ﬁn', 'FIN', 'fin', 'é', 'É', 'e', 'a', 'Z', 'ǰ', 'J̌', 'İ', 'i', 'ı', 'ŉ', 'ʼN', 'Ω', 'ω', 'ς', 'σ', 'Σ']
+
+    def rel(a, b, sym):
+        it = Interp(ctx.a, fm, {'a': T(a), 'b': T(b)}, inline_pkg=True, world=world)
+        out = it.run([ast.parse(f'return a {py[sym]} b').body[0]])
+        if out.end == 'return' and isinstance(out.value, Rec) and out.value.f.get('cls') == XLT + 'Boolean':
+            return out.value.f.get('value')
+        return out.value if out.end == 'return' and isinstance(out.value, bool) else f'<{out.end} {out.value!r}>'
+    for i, a in enumerate(odd):
+        for b in odd[i:]:
+            r = {sym: rel(a, b, sym) for sym in ops}
+            back = {sym: rel(b, a, sym) for sym in ('<', '>', '=')}
+            laws = [('exactly one of <, =, > is TRUE', [r['<'], r['='], r['>']].count(True) == 1 and all(isinstance(x, bool) for x in r.values())),
+                    ('<= is (< or =)', r['<='] == (r['<'] or r['='])), ('>= is (> or =)', r['>='] == (r['>'] or r['='])), ('<> is not =', r['<>'] == (not r['='])),
+                    ('a<b is b>a', r['<'] == back['>'] and r['>'] == back['<']), ('a=b is b=a', r['='] == back['=']),
+                    ('texts that differ only in case are equal', r['='] is True or a.upper() != b.upper() or a.lower() != b.lower())]
+            broken = [name for name, ok in laws if not ok]
+            n += 1
+            ctx.expect(not broken, anchor, f'order laws on the texts {a!r} and {b!r}',
+                       f'on the texts {a!r} and {b!r} the operators give {r} (reversed: {back}); broken: {"; ".join(broken)} - the six operators are views of one total order')
+    ctx.floor(1800, 'comparison rows')
 
 
 def rule_8(ctx):
